@@ -100,6 +100,12 @@ pub fn payload(kind: u8, len: usize, seed: u64) -> Vec<u8> {
         let mut v: Vec<u8> = (0..len.max(1)).map(|_| r.u64() as u8).collect();
         v[0] = 0xff; // never valid UTF-8
         v
+    } else if kind == 2 {
+        // binary without any extractable text: control bytes 0x01..0x08 only (a large payload of
+        // this kind stays ONE frame; random bytes are run through the text extractor and chunked)
+        let mut v: Vec<u8> = (0..len.max(1)).map(|_| 1 + (r.u64() % 8) as u8).collect();
+        v[0] = 0xff;
+        v
     } else {
         let mut s = token_of(seed);
         while s.len() < len {
@@ -711,10 +717,14 @@ fn quoted(arg: &str) -> Option<Vec<u8>> {
 fn split_call(line: &str) -> Option<(String, String, i64)> {
     let p = line.find('(')?;
     let name = line[..p].trim().to_string();
-    let eq = line.rfind(") = ")?;
+    // strace pads ")" and "=" with spaces up to column 40
+    let eqs = line.rfind(" = ")?;
+    let before = line[..eqs].trim_end();
+    if !before.ends_with(')') { return None; }
+    let eq = before.len() - 1;
     if eq < p { return None; }
     let args = line[p + 1..eq].to_string();
-    let rest = line[eq + 4..].trim();
+    let rest = line[eqs + 3..].trim();
     let tok = rest.split(|c: char| c == ' ' || c == '<').next().unwrap_or("");
     let ret: i64 = if let Some(h) = tok.strip_prefix("0x") { i64::from_str_radix(h, 16).ok()? } else { tok.parse().ok()? };
     Some((name, args, ret))
@@ -1311,3 +1321,178 @@ pub fn scratch_dir(tag: &str) -> PathBuf {
 }
 
 pub fn used_names(fs: &FsSim) -> BTreeSet<String> { fs.dir.keys().cloned().collect() }
+
+// ---------------------------------------------------------------------------------------------
+// oracle: acknowledged-operations reference vs the observation of the reopened crash image
+
+#[derive(Clone, Debug)]
+pub struct Verdict {
+    pub ok: bool,
+    /// stable failure class (kebab-case) when !ok
+    pub signature: String,
+    pub what: String,
+    /// which allowed state the observation matched: "acked" | "acked+inflight" | "create-in-flight" | ""
+    pub matched: &'static str,
+}
+
+pub fn judge(history: &[HOp], spans: &[StepSpan], k: usize, obs: &Obs, tokens: &[String]) -> Verdict {
+    let (acked, with, inflight) = allowed_states(history, spans, k);
+    let step_name = |i: Option<usize>| -> String {
+        match i {
+            None => "idle".into(),
+            Some(i) => spans.iter().find(|s| s.index == i).map(|s| s.name.clone()).unwrap_or_else(|| "?".into()),
+        }
+    };
+    let inname = step_name(inflight);
+    if !obs.ok {
+        if inflight == Some(0) {
+            // the memory was never acknowledged to exist
+            return Verdict { ok: true, signature: String::new(), what: String::new(), matched: "create-in-flight" };
+        }
+        return Verdict {
+            ok: false,
+            signature: format!("open-fails-after-crash-in-{}", inname.replace('_', "-")),
+            what: format!("Memvid::open fails ({}) on the file a process crash inside `{}` leaves; acknowledged state: [{}]", obs.err, inname, acked.frames_line()),
+            matched: "",
+        };
+    }
+    let got = obs.frames_line();
+    let cands: Vec<(&'static str, &RefModel)> = match &with {
+        Some(w) => vec![("acked", &acked), ("acked+inflight", w)],
+        None => vec![("acked", &acked)],
+    };
+    for (tag, m) in &cands {
+        if got == m.frames_line() {
+            // frames agree; search sanity on this state
+            let exp = m.search_expect(tokens);
+            if obs.search != exp {
+                let diff: Vec<String> = exp.iter().filter(|(k, v)| obs.search.get(*k) != Some(*v))
+                    .map(|(k, v)| format!("{k}: expected {v:?} got {:?}", obs.search.get(k))).collect();
+                return Verdict {
+                    ok: false,
+                    signature: format!("search-wrong-after-crash-in-{}", inname.replace('_', "-")),
+                    what: format!("frames are as acknowledged but search answers differ after a crash inside `{}`: {}", inname, diff.join("; ")),
+                    matched: tag,
+                };
+            }
+            return Verdict { ok: true, signature: String::new(), what: String::new(), matched: tag };
+        }
+    }
+    // classify the mismatch
+    let nack = acked.frames.len();
+    let nobs = obs.frames.len();
+    let class = if obs.frames.iter().any(|f| f.content.starts_with("err:")) {
+        "frame-unreadable"
+    } else if nobs < nack {
+        "lost-acknowledged-op"
+    } else if nobs > with.as_ref().map(|w| w.frames.len()).unwrap_or(nack) {
+        "extra-frames"
+    } else {
+        "wrong-state"
+    };
+    Verdict {
+        ok: false,
+        signature: format!("{class}-after-crash-in-{}", inname.replace('_', "-")),
+        what: format!("after a crash inside `{}` the reopened memory shows [{}]; allowed: [{}]{}", inname, got, acked.frames_line(),
+            with.as_ref().map(|w| format!(" or [{}]", w.frames_line())).unwrap_or_default()),
+        matched: "",
+    }
+}
+
+/// every process-crash point of a recording: (k = number of completed recorded ops, image of m.mv2)
+/// — only points after a mutation of the directory; points where the file does not exist are skipped.
+pub fn process_crash_points(rec: &Recording) -> Vec<(usize, Vec<u8>)> {
+    let mut sim = rec.initial.clone();
+    let mut out = vec![];
+    for (i, s) in rec.ops.iter().enumerate() {
+        sim.apply(s);
+        if s.is_mutation() {
+            if let Some(f) = sim.file(FILE_NAME) {
+                out.push((i + 1, f.to_vec()));
+            }
+        }
+    }
+    out
+}
+
+/// recorder self-check: simulated file == hash reported by the child at every op boundary
+pub fn selfcheck(rec: &Recording) -> Result<usize, String> {
+    let mut sim = rec.initial.clone();
+    let marks = hash_marks(&rec.ops);
+    let mut mi = 0;
+    let mut n = 0;
+    for (i, s) in rec.ops.iter().enumerate() {
+        sim.apply(s);
+        if mi < marks.len() && marks[mi].0 == i {
+            let h = sim.file(FILE_NAME).map(b3hex).unwrap_or_else(|| "missing".into());
+            if h != marks[mi].1 {
+                return Err(format!("simulated file differs from the real file at recorded op {i} (sim {h}, real {})", marks[mi].1));
+            }
+            n += 1;
+            mi += 1;
+        }
+    }
+    Ok(n)
+}
+
+pub fn record_history(exe: &Path, scratch: &Path, history: &[HOp]) -> Result<Recording, String> {
+    let dir = scratch.join("mem");
+    let _ = std::fs::remove_dir_all(&dir);
+    std::fs::create_dir_all(&dir).map_err(|e| e.to_string())?;
+    let path = dir.join(FILE_NAME);
+    let rec = record(exe, &["child-run".into(), path.to_string_lossy().to_string(), serde_json::to_string(history).unwrap()], &dir, FsSim::default(), scratch)?;
+    let _ = std::fs::remove_dir_all(&dir);
+    if !rec.exit_ok {
+        return Err(format!("recording child failed: {}", rec.stdout));
+    }
+    if !rec.warnings.is_empty() {
+        return Err(format!("recorder warnings: {:?}", rec.warnings));
+    }
+    selfcheck(&rec)?;
+    Ok(rec)
+}
+
+// ---------------------------------------------------------------------------------------------
+// evaluation of all process-crash points of one recording
+
+pub struct PointResult {
+    pub k: usize,
+    pub image: usize,
+    pub inflight: String,
+    pub verdict: Verdict,
+}
+
+pub struct CrashEval {
+    pub points: Vec<PointResult>,
+    /// distinct images (by content) and the observation of the real open on each
+    pub images: Vec<Vec<u8>>,
+    pub obs: Vec<OpenResult>,
+}
+
+pub fn inflight_name(spans: &[StepSpan], k: usize) -> String {
+    spans.iter().find(|s| s.begin < k && s.end >= k).map(|s| s.name.clone()).unwrap_or_else(|| "idle".into())
+}
+
+pub fn eval_process_crashes(exe: &Path, scratch: &Path, history: &[HOp], rec: &Recording, twice: bool) -> CrashEval {
+    let tokens = all_tokens(history);
+    let spans = step_spans(&rec.ops);
+    let pts = process_crash_points(rec);
+    let mut images: Vec<Vec<u8>> = vec![];
+    let mut index: BTreeMap<String, usize> = BTreeMap::new();
+    let mut which = vec![];
+    for (_, img) in &pts {
+        let h = format!("{}-{}", b3hex(img), img.len());
+        let idx = *index.entry(h).or_insert_with(|| {
+            images.push(img.clone());
+            images.len() - 1
+        });
+        which.push(idx);
+    }
+    let obs = open_images(exe, scratch, &images, &tokens, twice);
+    let mut points = vec![];
+    for ((k, _), idx) in pts.iter().zip(which.iter()) {
+        let v = judge(history, &spans, *k, &obs[*idx].first, &tokens);
+        points.push(PointResult { k: *k, image: *idx, inflight: inflight_name(&spans, *k), verdict: v });
+    }
+    CrashEval { points, images, obs }
+}
